@@ -57,7 +57,7 @@ SetKey(e, c) == /\ color[e] # "G"
                 /\ cost' = [cost EXCEPT ![e] = c]
                 /\ UNCHANGED <<p, pos, color, last>>
 
-Insert(e) == /\ color[e] = "W"
+Insert(e) == /\ color[e] # "G"          \* never queued, or returned before (its pos entry is then -1, or a stale 0)
              /\ LET r == DoInsert(e, cost) IN
                 p' = r[1] /\ pos' = r[2] /\ color' = r[3] /\ last' = r[4]
              /\ UNCHANGED cost
